@@ -12,6 +12,10 @@ inductive Out
   | panic
 deriving DecidableEq, Repr
 
+def isOk : Out → Bool
+  | .ok _ => true
+  | _ => false
+
 /-! ### bank interface -/
 
 def Bank.credit (b : Bank) (who : String) (d : Str) (amt : Nat) : Bank :=
